@@ -30,6 +30,7 @@ Fixpoint enc_gval (g : Values.gval) : bytes :=
   | Values.GFloat d => let d' := Values.f64_norm d in
                        100%N :: dec_of_Z (Values.fm d') ++ 101%N :: dec_of_Z (Values.fe d') ++ [59]%N   (* d<m>e<e>; *)
   | Values.GString s => 115%N :: enc_len (length s) ++ 58%N :: s       (* s<len>:<bytes> *)
+  | Values.GTime c => 84%N :: enc_len (length c) ++ 58%N :: c          (* T<len>:<RFC3339Nano rendering> *)
   | Values.GList vs => 91%N :: flat_map enc_gval vs ++ [93]%N          (* [ ... ] *)
   | Values.GMap kvs =>
       123%N :: flat_map (fun kv => enc_len (length (fst kv)) ++ 58%N :: fst kv ++ 61%N :: enc_gval (snd kv)) kvs ++ [125]%N
@@ -48,8 +49,9 @@ Fixpoint assoc_pos {A} (p : pos) (l : list (pos * A)) : option A :=
   | (q, v) :: r => if pos_eqb p q then Some v else assoc_pos p r
   end.
 
-(** the DateTime scalar of package apifu is not used by C01's schemas: its parser oracle is empty *)
-Definition no_datetime : bytes -> option bytes := fun _ => None.
+(** the parser oracle of apifu's DateTime scalar (C05's [dt] parameter), from the schema's table *)
+Definition dt_oracle (S : schema) : bytes -> option bytes :=
+  fun s => match Values.aget s (s_dt S) with Some o => o | None => None end.
 
 Section Args.
   Variables (S : schema) (D : document).
@@ -67,7 +69,7 @@ Section Args.
   (** coerceArgumentValues(field, fieldDef.Arguments, field.Arguments, e.VariableValues) in
       executeField, for the FIRST field node of the group *)
   Definition coerce_field_args (ot : name) (f : fnode) : Values.res cargs :=
-    CoerceModel.coerce_argument_values CoerceModel.all_fixed (s_inputs S) no_datetime
+    CoerceModel.coerce_argument_values CoerceModel.all_fixed (s_inputs S) (dt_oracle S)
       (argdefs_of ot (fn_name f)) (args_of f) (d_vars D).
 End Args.
 
@@ -88,7 +90,7 @@ Fixpoint first_failing_var (S : schema) (defs : list (Values.vardef * pos)) (don
   match defs with
   | [] => None
   | (d, p) :: rest =>
-      match CoerceModel.coerce_variable_values CoerceModel.all_fixed (s_inputs S) no_datetime (done ++ [d]) raw with
+      match CoerceModel.coerce_variable_values CoerceModel.all_fixed (s_inputs S) (dt_oracle S) (done ++ [d]) raw with
       | Values.Ok _ => first_failing_var S rest (done ++ [d]) raw
       | _ => Some p
       end
